@@ -71,12 +71,16 @@ def run_eval_correspondence(ctx, cases, level="node", fc_assign=None, tag="C04")
     from vlib import evalimpl
 
     terms, meta, raws = [], [], []
+    last_tree = [None, None]
     for t, rho in cases:
         hints = default_hints([k for k in exprs.leaves(t) if exprs.kind(k) == "hint"])
         fkeys = [k for k in exprs.leaves(t) if exprs.kind(k) == "fc"]
         fc = fc_assign(t, rho) if fc_assign else {k: (True, None) for k in fkeys}
         evalimpl.set_cer(rc=rho, hints=hints, fc=fc)
-        lt = to_lark(t)
+        # the SAME parsed tree object is evaluated under successive assignments (evaluation must not consume it)
+        if last_tree[0] is not t:
+            last_tree[0], last_tree[1] = t, to_lark(t)
+        lt = last_tree[1]
         ce = gcer(rho, hints, fc)
         if level == "node":
             raw = evalimpl.outcome(lambda: evalimpl.node_evaluation(lt))
